@@ -5,6 +5,7 @@
 # 2. runs the registered check of that property against the patched worktree (VERIF_REPO), never against /repo
 # Prints a one-line verdict; removes the worktree.
 set -u
+VHOME="$(cd "$(dirname "$0")/.." && pwd)"
 SD="$(cd "$1" && pwd)"; shift
 export GOFLAGS=-mod=mod GOPROXY=off GOSUMDB=off GOTOOLCHAIN=local
 PROP="$(python3 -c "import json;print(json.load(open('$SD/meta.json'))['property'])")"
@@ -40,8 +41,8 @@ suite_ok=no; [ "$BASE" = "$WITH" ] && suite_ok=yes
 demo_ok=no; case "$without" in ok*) case "$with" in FAIL*|*FAIL*) demo_ok=yes;; esac;; esac
 echo "SEED $PROP confirm: suite_unchanged=$suite_ok demo_fails_with=$([[ "$with" == *FAIL* ]] && echo yes || echo no) demo_passes_without=$([[ "$without" == ok* ]] && echo yes || echo no)"
 [ "${SEEDCHECK_CONFIRM_ONLY:-}" = 1 ] && exit 0
-out="$(VERIF_REPO="$WT" /verif/simctl check "$CHECK" --tier "${SEED_TIER:-quick}" "$@" 2>&1)"; rc=$?
+out="$(VERIF_REPO="$WT" "$VHOME/simctl" check "$CHECK" --tier "${SEED_TIER:-quick}" "$@" 2>&1)"; rc=$?
 echo "$out" | grep -E '^(VIOLATION|  clause|simh:)' | cut -c1-400
 # evidence/replays written by this run belong to the patched tree: restore the committed ones
-git -C /verif checkout -q -- "evidence/$CHECK.json" 2>/dev/null
+git -C "$VHOME" checkout -q -- "evidence/$CHECK.json" 2>/dev/null
 case $rc in 1) echo "SEED $PROP: CAUGHT";; 0) echo "SEED $PROP: MISSED";; *) echo "SEED $PROP: check exit $rc (infrastructure)"; echo "$out" | tail -5;; esac
